@@ -14,6 +14,8 @@ def native():
     if "so" not in _st: _st["so"] = ctypes.CDLL(build.compile_native(os.path.join(V, "replay", "c15_replay.cc"), extra=["-I" + V]))
     return _st["so"]
 def replay(case):
+    native(); return common.isolated(_replay, case)
+def _replay(case):
     msg = ctypes.create_string_buffer(512)
     if "off" in case:
         if native().c15_check_off(ctypes.c_long(int(case["off"])), msg): return msg.value.decode("latin1")
